@@ -316,12 +316,77 @@ theorem lawAt_iff (A B R : EO.Polygon) (op : EO.Op) (p : EO.Pt) :
   rw [← apply_iff]
   cases EO.inside R p <;> cases op.apply (EO.inside A p) (EO.inside B p) <;> simp
 
+theorem crosses_straddles (a b p : EO.Pt) (h : EO.crosses a b p = true) : EO.straddles p.y (a, b) = true := by
+  unfold EO.crosses at h
+  unfold EO.straddles
+  split at h
+  · simp only [decide_eq_true_eq] at h
+    simp [h.1, h.2.1]
+  · split at h
+    · simp only [decide_eq_true_eq] at h
+      simp [h.1, h.2.1]
+    · cases h
+
+/-- dropping the edges that do not straddle the ordinate of `p` does not change the even-odd test at `p` -/
+theorem insideE_filter (E : List (EO.Pt × EO.Pt)) (p : EO.Pt) :
+    EO.insideE (E.filter (EO.straddles p.y)) p = EO.insideE E p := by
+  unfold EO.insideE EO.crossCountE
+  rw [List.countP_filter]
+  have : List.countP (fun e => EO.crosses e.1 e.2 p && EO.straddles p.y e) E =
+      List.countP (fun e => EO.crosses e.1 e.2 p) E := by
+    apply List.countP_congr
+    intro e _
+    cases h : EO.crosses e.1 e.2 p
+    · simp
+    · simp [crosses_straddles e.1 e.2 p h]
+  rw [this]
+
+theorem lawAtE_filter (EA EB ER : List (EO.Pt × EO.Pt)) (op : EO.Op) (p : EO.Pt) :
+    EO.lawAtE (EA.filter (EO.straddles p.y)) (EB.filter (EO.straddles p.y)) (ER.filter (EO.straddles p.y)) op p =
+      EO.lawAtE EA EB ER op p := by
+  unfold EO.lawAtE
+  rw [insideE_filter, insideE_filter, insideE_filter]
+
 theorem cellsOK_cell (N : Nat) (A2 B2 R2 : EO.Polygon) (op : EO.Op) (h : EO.cellsOK N A2 B2 R2 op = true)
     (i j : Nat) (hi : i < N) (hj : j < N) : EO.lawAt A2 B2 R2 op (EO.centre2 i j) = true := by
   unfold EO.cellsOK at h
+  simp only at h
   rw [List.all_eq_true] at h
-  have h1 := h i (List.mem_range.mpr hi)
+  have h1 := h j (List.mem_range.mpr hj)
   rw [List.all_eq_true] at h1
-  exact h1 j (List.mem_range.mpr hj)
+  have h2 := h1 i (List.mem_range.mpr hi)
+  have hy : (EO.centre2 i j).y = 2 * (j : Int) + 1 := rfl
+  rw [← hy, lawAtE_filter, EO.lawAtE_allEdges] at h2
+  exact h2
+
+/-! ### translation invariance (lattice calls whose coordinates carry a common offset) -/
+
+def translate (t p : QPt) : QPt := ⟨p.x + t.x, p.y + t.y⟩
+def translatePoly (t : QPt) (P : QPolygon) : QPolygon := P.map (fun c => c.map (translate t))
+
+theorem crosses_translate (t a b p : QPt) :
+    crosses (translate t a) (translate t b) (translate t p) ↔ crosses a b p := by
+  rw [crosses_iff, crosses_iff]
+  unfold translate
+  simp only
+  have e1 : p.x + t.x - (a.x + t.x) = p.x - a.x := by ring
+  have e2 : b.y + t.y - (a.y + t.y) = b.y - a.y := by ring
+  have e3 : p.y + t.y - (a.y + t.y) = p.y - a.y := by ring
+  have e4 : b.x + t.x - (a.x + t.x) = b.x - a.x := by ring
+  rw [e1, e2, e3, e4, add_lt_add_iff_right, add_lt_add_iff_right, add_lt_add_iff_right, add_lt_add_iff_right,
+    add_le_add_iff_right, add_le_add_iff_right]
+
+/-- the even-odd rule is invariant under translation -/
+theorem inside_translate (t : QPt) (P : QPolygon) (p : QPt) :
+    inside (translatePoly t P) (translate t p) ↔ inside P p := by
+  unfold inside crossCount translatePoly
+  rw [allEdges_map, List.countP_map]
+  have : List.countP ((fun e : QPt × QPt => decide (crosses e.1 e.2 (translate t p))) ∘ Prod.map (translate t) (translate t))
+      (EO.allEdges P) = List.countP (fun e => decide (crosses e.1 e.2 p)) (EO.allEdges P) := by
+    apply List.countP_congr
+    intro e _
+    simp only [Function.comp, Prod.map, decide_eq_true_eq]
+    exact crosses_translate t e.1 e.2 p
+  rw [this]
 
 end EOQ
